@@ -2,6 +2,7 @@
 values, equivalent-spelling families, API-level interchangeability, malformed-string mutations (+ optional atheris)."""
 import itertools
 import math
+import os
 from fractions import Fraction
 
 from hypothesis import given, strategies as st
@@ -484,6 +485,61 @@ def run(col):
             col.sample({'valid': valid, 'mutated': bad, 'mutation': origin})
         return test
     core.run_property(col, t_malformed, budget(600, 20000, col.tier), tag='malformed')
+    if col.tier == 'thorough' and col.shard < 8:
+        atheris_tier(col)
+
+
+FUZZ_DICT = ['" mol"', '" g"', '" L"', '" U"', '"/"', '" %w/w"', '" %v/v"', '" %w/v"', '" M"', '" m"', '"mmol"', '"umol"',
+             '"mL"', '"uL"', '"kg"', '"da"', '"\xc2\xb5"', '"e-3"', '"0.5"', '"10 "', '"/10 mL"', '" U/mL"', '"nmol/L"']
+
+
+def atheris_tier(col):
+    """thorough tier only: a libFuzzer campaign per shard (own seed, fresh corpus + a few documented examples)"""
+    import json
+    import subprocess
+    import sys
+    import tempfile
+    import shutil
+    deps = os.path.join(core.env.VERIF_DIR, '.deps')
+    if not os.path.isdir(os.path.join(deps, 'atheris')):
+        col.notes.append('atheris is not installed under .deps: byte-fuzz tier skipped (Hypothesis mutation tier stands alone)')
+        return
+    work = tempfile.mkdtemp(prefix='c14-fuzz-')
+    try:
+        corpus = os.path.join(work, 'corpus')
+        os.makedirs(corpus)
+        if col.shard % 2 == 0:      # half of the shards start from documented examples, the other half from nothing
+            for i, ex in enumerate(['1 mmol', '10.2 g', '10 uL', '3 U', '0.1 M', '0.1 m', '0.1 g/mL', '0.01 umol/10 uL',
+                                    '5 %v/v', '5 %w/v', '5 %w/w', '10 U/mg']):
+                for kind in (0, 1):
+                    with open(os.path.join(corpus, f"seed{i}_{kind}"), 'wb') as f:
+                        f.write(bytes([kind]) + ex.encode())
+        dict_path = os.path.join(work, 'dict.txt')
+        with open(dict_path, 'w') as f:
+            f.write('\n'.join(FUZZ_DICT) + '\n')
+        out = os.path.join(work, 'out.json')
+        runs = core.budget(0, 2000000, col.tier)
+        seed = core.derive_seed(col.seed, 'C14', 'atheris', col.shard) % (2 ** 31 - 1) + 1
+        e = dict(os.environ, PYTHONPATH=os.pathsep.join([core.env.VERIF_DIR, deps, os.environ.get('PYTHONPATH', '')]))
+        r = subprocess.run([sys.executable, os.path.join(core.env.VERIF_DIR, 'checks', 'c14_fuzz.py'), out, corpus,
+                            f"-runs={runs}", f"-seed={seed}", '-max_len=48', f"-dict={dict_path}", '-print_final_stats=1'],
+                           capture_output=True, text=True, env=e, timeout=3600)
+        if not os.path.exists(out):
+            col.notes.append(f"atheris run produced no result file (rc={r.returncode}): {r.stderr[-300:]}")
+            return
+        with open(out) as f:
+            res = json.load(f)
+        col.case(res['stats']['execs'])
+        col.label('atheris-execs', res['stats']['execs'])
+        col.label('atheris-strictly-valid-inputs', res['stats']['strict_valid'])
+        cov = [ln for ln in r.stderr.splitlines() if ' cov: ' in ln]
+        if cov:
+            col.notes.append(f"atheris shard {col.shard} seed {seed}: {cov[-1].strip()[:160]}")
+        for v in res['found']:
+            with col.enumeration():
+                col.report('atheris/' + v['sig'], v['detail'], v['case'])
+    finally:
+        shutil.rmtree(work, ignore_errors=True)
 
 
 def replay(col, case):
